@@ -218,3 +218,27 @@ class Report:
             print("VIOLATION property=%s replay=%s%s" % (self.pid, path, " no-failing-input-found" if nofail else ""))
         sys.stdout.flush()
         return 1 if self.violations else 0
+
+
+def trim_caches(limit_kb=6 * 1024 * 1024):
+    """Disk hygiene: the Go build cache of the scratch packages (-race objects) grows by gigabytes per recomputed stage.
+    When it exceeds the limit, entries not used for an hour are removed (oldest stage sources and binaries too)."""
+    import subprocess, time
+    gc = os.path.join(CACHE, "gocache")
+    try:
+        kb = int(subprocess.run(["du", "-sk", gc], capture_output=True, text=True).stdout.split()[0])
+    except Exception:
+        return
+    if kb > limit_kb:
+        subprocess.run(["find", gc, "-type", "f", "-amin", "+60", "-delete"], capture_output=True)
+        kb2 = int(subprocess.run(["du", "-sk", gc], capture_output=True, text=True).stdout.split()[0])
+        if kb2 > limit_kb:
+            subprocess.run(["find", gc, "-type", "f", "-amin", "+10", "-delete"], capture_output=True)
+    for sub, keepn in (("bin", 8), ("stage", 60)):
+        d = os.path.join(CACHE, sub)
+        if not os.path.isdir(d):
+            continue
+        ents = sorted((os.path.getmtime(os.path.join(d, x)), x) for x in os.listdir(d))
+        for _, x in ents[:-keepn]:
+            pth = os.path.join(d, x)
+            shutil.rmtree(pth, ignore_errors=True) if os.path.isdir(pth) else os.remove(pth)
